@@ -296,9 +296,13 @@ fn worker_main(slot: Arc<Slot>) {
                     .map(|d| d.as_secs() as i64)
                     .unwrap_or(-1);
                 let pid = std::process::id();
+                let t1 = std::time::Instant::now();
+                let t2 = std::time::Instant::now();
+                let elapsed = t2.duration_since(t1).as_nanos();
+                let tty = std::io::IsTerminal::is_terminal(&std::io::stderr());
                 let heap = Box::new(0u8);
                 let addr = &*heap as *const u8 as usize;
-                reply(format!("ok env={env},{env2},{envx} cwd={cwd} open={f} ncpu={ncpu} now={now} pid={pid} heap={addr:x}\n").as_bytes());
+                reply(format!("ok env={env},{env2},{envx} cwd={cwd} open={f} ncpu={ncpu} now={now} pid={pid} elapsed={elapsed} tty={tty} heap={addr:x}\n").as_bytes());
                 slot.finish();
             },
             Cmd::Frag(seed, n) => {
@@ -373,6 +377,8 @@ pub fn host_main() -> i32 {
     let envnum = |k: &str| std::env::var(k).ok().and_then(|v| v.parse::<u64>().ok()).unwrap_or(0);
     seams::ENV_SEED.store(envnum("VERIF_ENV_SEED"), Ordering::SeqCst);
     seams::SIM_NCPU.store(envnum("VERIF_NCPU"), Ordering::SeqCst);
+    seams::SIM_CLOCK_STEP_NS.store(envnum("VERIF_CLOCK_STEP_NS") as i64, Ordering::SeqCst);
+    seams::SIM_ISATTY.store(envnum("VERIF_ISATTY"), Ordering::SeqCst);
     let stdin = std::io::stdin();
     let mut r = BufReader::new(stdin.lock());
     let mut inputs: BTreeMap<u64, Arc<String>> = BTreeMap::new();
